@@ -710,8 +710,8 @@ impl PreferenceManager {
             let Some(pref_value) = pref_value.as_str() else {
                 bail!("{} is not a string-valued MathCAT preference -- can't set it to '{}'", key, value);
             };
+            is_user_pref = false;       // an API pref even if the value is unchanged
             if pref_value != value {
-                is_user_pref = false;
                 self.reset_files_from_preference_change(key, value)?;
             }
         } else if let Some(pref_value) = self.user_prefs.prefs.get(key) {
